@@ -38,7 +38,8 @@ def build(chk):
         "numflux through its contract: one deterministic pointwise function of the two face states (frame proved in C01)",
         "a cyclic shift by k cells is the k-fold composition of the one-cell shift (lemma); min over cells is invariant "
         "under permutations (lemma); integrators/driver by the normal forms of C05/C06/C07",
-        "2-D (shifts along x and y) is decided with the 2-D machinery (not yet claimed here)",
+        "2-D: fvm2dcart.rhs on the periodic Cartesian grid (symbolic nx, ny >= 1, lx, ly, kappa), shift by one cell along x or y; "
+        "cons2prim and numflux through their pointwise contracts (leaf clauses in C15 cons2prim/*, C01 flux/*/pointwise)",
     ]
     for kind in ("convection", "burgers", "shallowwater", "euler1d", "nozzle"):
         for label, cls, lim in num_configs(chk):
@@ -92,3 +93,98 @@ def build(chk):
                         prove("timestep-shift-equivariant/%s" % nm, T.treal(d2.at(i)) == T.treal(d1.at(wrap(T.sub(i, 1), n))), replay=rp)
                     canary("canary", T.treal(r2[0].at(cells[0][1])) == T.treal(r1[0].at(cells[0][1])) + 1)
                 chk.run(cfg, sh)
+
+
+def build2d(chk):
+    """2-D: the residual of the data shifted cyclically by one cell along x (y) is the shifted residual, at a generic cell"""
+    from .C15 import cell_array, C2PContract, cons_arrays, xface, yface, QN_C2P, EX, EY
+    it = chk.interp
+    for numname, haskappa in (("extrapol2d1", False), ("extrapol2dk", True)):
+        for dn in ("x", "y"):
+            cfg = "fvm2dcart/euler2d/%s/shift-along-%s" % (numname, dn)
+            chk.configs.append(cfg)
+            rp = {"fn": "shift2d_clause", "args": {"num": numname, "direction": dn}}
+
+            def sh(numname=numname, haskappa=haskappa, dn=dn, rp=rp):
+                nx, ny = z3.Int("nx"), z3.Int("ny")
+                lx, ly = z3.Real("lx"), z3.Real("ly")
+                assume(z3.And(nx >= 1, ny >= 1, lx > 0, ly > 0))
+                a, b = z3.Int("a"), z3.Int("b")            # generic cell: row a, column b
+                assume(z3.And(a >= 0, a < ny, b >= 0, b < nx))
+                lemma("index-products", z3.And(a * nx >= 0, (ny - 1 - a) * nx >= 0, (nx - 1) * (ny - 1) >= 0))
+                for t in (0, 1, 2, 3):
+                    lemma("index-products/a/%d" % t,
+                          z3.And(z3.Implies(a >= t, (a - t) * nx >= 0), z3.Implies(a <= t, (t - a) * nx >= 0),
+                                 z3.Implies(a <= ny - 1 - t, (ny - 1 - t - a) * nx >= 0),
+                                 z3.Implies(a >= ny - 1 - t, (a - (ny - 1 - t)) * nx >= 0)))
+                mesh = it.call(get(chk, "flowdyn.mesh2d", "mesh2d"), [nx, ny, lx, ly], {})
+                m, info = make_model(chk, "euler2d")
+                num = it.call(get(chk, "flowdyn.xnum", numname), [z3.Real("kappa")] if haskappa else [], {})
+                per = {"type": "per"}
+                bc = {"left": per, "right": per, "bottom": per, "top": per}
+                dcls = get(chk, "flowdyn.modeldisc", "fvm2dcart")
+                d1 = it.call(dcls, [m, mesh, num, bc], {})
+                d2 = it.call(dcls, [m, mesh, num, bc], {})
+                n = nx * ny
+                Q1 = cons_arrays(n)
+                q1 = [Q1[0]._snapshot_at(), Q1[1].rows[0]._snapshot_at(), Q1[1].rows[1]._snapshot_at(), Q1[2]._snapshot_at()]
+                prev = lambda v, N: z3.If(v >= 1, v - 1, N - 1)      # cyclic predecessor
+                if dn == "x":
+                    cellmap = lambda r, c: r * nx + prev(c, nx)
+                else:
+                    cellmap = lambda r, c: prev(r, ny) * nx + c
+
+                def comp(k):
+                    def val(r, c):
+                        i = cellmap(r, c)
+                        i = T.simp(i) if T.is_sym(i) else i
+                        return T.treal(q1[k](i))
+                    return cell_array(n, nx, val)
+                Q2 = [comp(0), A.Sym2D([comp(1), comp(2)]), comp(3)]
+                f1, f2 = make_field(chk, m, mesh, Q1), make_field(chk, m, mesh, Q2)
+                it.contracts[QN_C2P] = C2PContract()
+                it.active_contracts.add(QN_C2P)
+                try:
+                    with use_flux_contract(it, "euler2d", info, clauses=(), requires=False, opaque=True) as fc, lazy_safety():
+                        res1 = [r.copy() for r in it.call(it.getattr(d1, "rhs"), [f1], {})]
+                        rec1 = fc.last
+                        res2 = it.call(it.getattr(d2, "rhs"), [f2], {})
+                        rec2 = fc.last
+                        cfl = z3.Real("cfl")
+                        assume(cfl > 0)
+                        t1 = it.call(it.getattr(d1, "calc_timestep"), [f1, cfl], {})
+                        t2 = it.call(it.getattr(d2, "calc_timestep"), [f2, cfl], {})
+                finally:
+                    it.active_contracts.discard(QN_C2P)
+                r1, c1 = (a, prev(b, nx)) if dn == "x" else (prev(a, ny), b)
+                faces = []
+                for dF in (0, 1):
+                    faces.append(("x%d" % dF, xface(nx, a, b + dF), xface(nx, r1, c1 + dF)))
+                    faces.append(("y%d" % dF, yface(nx, ny, a + dF, b), yface(nx, ny, r1 + dF, c1)))
+                names = ("rho", "ux", "uy", "p")
+                for fname, f2i, f1i in faces:
+                    f1i = T.simp(f1i)
+                    a2, a1 = rec2["args_at"](f2i), rec1["args_at"](f1i)
+                    for j, (x, y) in enumerate(zip(a1[:8], a2[:8])):
+                        lemma("face-states/%s/%s[%s]" % (fname, "L" if j < 4 else "R", names[j % 4]), y == x)
+                    same = z3.And(*[y == x for x, y in zip(a1, a2)])
+                    for g1, g2 in zip(rec1["G"], rec2["G"]):
+                        gg = T.treal(g2.at(f2i))
+                        T.cur().add_fact(z3.Implies(same, gg == T.treal(g1.at(f1i))), trigger=gg)
+                    lemma("flux-arguments-are-equal/%s" % fname, same)
+                cell1 = T.simp(r1 * nx + c1)
+                r2f, r1f = flat_at(res2, a * nx + b), flat_at(res1, cell1)
+                for k, cn in enumerate(comp_names("euler2d")):
+                    prove("shift-equivariant[%s]" % cn, r2f[k] == r1f[k], replay=rp)
+                prove("timestep-shift-equivariant", T.treal(t2.at(a * nx + b)) == T.treal(t1.at(cell1)), replay=rp)
+                canary("canary", r2f[0] == r2f[0] + 1)
+            chk.run(cfg, sh)
+    chk.lemmas.append("2-D: a shift by (kx, ky) cells is a composition of one-cell shifts along x and y")
+
+
+_build1d = build
+
+
+def build(chk):
+    _build1d(chk)
+    build2d(chk)
